@@ -9,7 +9,7 @@ from hypothesis import strategies as st
 
 from ..core import SubCheck, Violation, cut, quiet, require
 from ..oracles import cphot_ref as ref
-from ..strategies import bfloat, log_uniform, near, ulp_step
+from ..strategies import abs_near, bfloat, log_uniform, near, rel_near, ulp_step
 from .c06 import B42, ONE_DEG, alt_s, alt_u, beta_s, beta_u, energy, loge_u
 
 PROPERTY_ID = "C08"
@@ -40,7 +40,13 @@ alt_range = st.one_of(
     st.sampled_from([0.0, 20.0, ulp_step(0.0, -1), ulp_step(20.0, 1), -1e-9, -5.0, 20.000001, 25.0, 100.0, -0.0, ulp_step(20.0, -1), 5e-324]),
 )
 event_st = st.tuples(st.one_of(beta_u, beta_s), alt_range, loge_u).map(list)
-det_st = st.one_of(log_uniform(21.0, 40000.0), st.sampled_from([33.0, 525.0, 525.0, 21.0, 64.0, 66.0, 400.0, 2000.0, 35786.0]))
+det_st = st.one_of(
+    log_uniform(21.0, 40000.0),
+    st.sampled_from([33.0, 525.0, 525.0, 21.0, 64.0, 66.0, 400.0, 2000.0, 35786.0]),
+    # interior windows around the reference orbit and the top of the atmosphere (tolerances written in the wrong unit)
+    abs_near([525.0, 65.0], [1e-3, 0.5, 1.0, 5.0], 21.0, 40000.0),
+    rel_near([525.0], 21.0, 40000.0),
+)
 area_st = st.one_of(st.floats(1e-3, 100.0), st.sampled_from([2.5, 1.0, 100.0]))
 qe_st = st.one_of(st.floats(1e-3, 1.0), st.sampled_from([0.2, 1.0]))
 ratio_st = st.one_of(
@@ -180,6 +186,20 @@ def body_chain(case):
     with cut("EAS(lower threshold)"):
         pe3, cos3, _ = run_eas(_eas(det, area, qe, thr / case["lower"]), beta, alt, E)
     require(bool(np.all(cos3 <= cos2 + 1e-15)), f"the effective angle decreases when the signal-to-threshold ratio grows by {case['lower']!r}: cos {cos2.tolist()} -> {cos3.tolist()}")
+    # the same module object after its configuration was edited in place behaves like a fresh object of that
+    # configuration (area, efficiency and threshold are read when the stage is called)
+    eas_live = _eas(det, 1.0, 1.0, 1e300)
+    with cut("EAS (live object, first call)"):
+        run_eas(eas_live, beta, alt, E)
+    eas_live.config.detector.optical.telescope_effective_area = area
+    eas_live.config.detector.optical.quantum_efficiency = qe
+    eas_live.config.detector.optical.photo_electron_threshold = thr
+    with cut("EAS (live object after editing area, efficiency and threshold in its configuration)"):
+        pe4, cos4, _ = run_eas(eas_live, beta, alt, E)
+    require(
+        pe4.tobytes() == pe2.tobytes() and cos4.tobytes() == cos2.tobytes(),
+        f"after editing area/efficiency/threshold in the configuration of a live EAS object its results differ from a fresh object's: PE {pe4.tolist()} vs {pe2.tolist()}",
+    )
     r = pe2[inside] / thr
     if (~inside).any() and inside.any():
         labels.add("both_sides_of_range")
@@ -191,6 +211,8 @@ def body_chain(case):
         labels.add("altitude_limit_exact")
     if det != 525.0:
         labels.add("detector!=525")
+    if det != 525.0 and abs(det - 525.0) <= 5.0:
+        labels.add("detector_within_5km_of_525")
     return labels
 
 
